@@ -13,7 +13,7 @@ quantifier), identifiers are pairwise distinct (the macro rejects duplicates). F
 import os, random
 
 ROOT = os.path.dirname(os.path.dirname(os.path.dirname(os.path.abspath(__file__))))
-N_RANDOM = 36
+N_RANDOM = 42
 IDENTS = ['a', 'b', 'c', 'd', 'e', 'user', 'x1', 'zz', 'B', '_u']
 NAMES = ['z', 'A', '0', 'user.name', 'é', '', '{x}', 'b b', 'mm', 'aa', '日本', 'Z', 'a.b', '~']
 STRS = ['x', '', 'é', '7', 'a b']
@@ -34,6 +34,9 @@ HAND = [
     ('emit', []),
     ('props', [F('r#type', 5), F('a', 6, key='zz'), F('zz', 7, key='0')]),       # raw identifier sorts as `type`
     ('props', [F('a', 1, opt='none'), F('b', 2, key='A', opt='some'), F('c', 3, key='', cfg=True)]),
+    ('span', [F('a', 1, key='z'), F('b', 2), F('c', 3)]),                        # renamed key through the ambient frame
+    ('span', [F('a', 'x', key='b'), F('b', 2, key='a', opt='some'), F('c', 3, cfg=False), F('d', 4, opt='none')]),
+    ('span', []),
 ]
 
 
@@ -56,7 +59,7 @@ def gen_random(rng):
         opt = rng.choice([None, None, None, None, 'some', 'none'])
         val = rng.randrange(-3, 40) if (opt or rng.random() < 0.7) else rng.choice(STRS)
         fields.append(F(i, val, key=finals.get(i), cfg=cfg, opt=opt))
-    return (rng.choice(['props', 'emit']), fields)
+    return (rng.choice(['props', 'emit', 'span']), fields)
 
 
 def fixtures():
@@ -107,8 +110,8 @@ def template_text(fields):
     return ' '.join(f'{key_name(f["ident"])}={{{f["ident"]}}}' for f in fields)
 
 
-def queries(fields):
-    qs = []
+def queries(fields, kind='props'):
+    qs = ['evt_kind', 'span_name'] if kind == 'span' else []
     for f in fields:
         for k in (key_name(f['ident']), final(f)):
             if k not in qs:
@@ -140,11 +143,11 @@ def main():
     r = ['// GENERATED by harness/hcore/gen_c02_fixtures.py — do not edit; regenerate and commit both outputs.',
          '// Real macro call sites of stream `c02_macro`; the same table is lean/EmitModel/Model/PropsFixtures.lean.',
          '#![allow(unused_variables, clippy::all)]', '',
-         'use super::{MacroObs, observe_props_site, emit_site_runtime};', '',
+         'use super::{MacroObs, SpanRt, observe_props_site, emit_site_runtime, span_site_runtime};', '',
          f'pub const COUNT: usize = {len(fx)};', '',
          'pub fn run(index: usize) -> Option<MacroObs> {', '    match index {']
     for i, (kind, fields) in enumerate(fx):
-        qs = ', '.join(rust_str(q) for q in queries(fields))
+        qs = ', '.join(rust_str(q) for q in queries(fields, kind))
         body = ',\n                '.join(rust_field(f) for f in fields)
         if kind == 'props':
             # the template is built at run time from the table: text `ident=` + hole named by the FINAL key
@@ -161,6 +164,19 @@ def main():
             r.append('            };')
             r.append(f'            let parts = [{", ".join(parts)}];')
             r.append(f'            Some(observe_props_site(&props, &[{qs}], &parts))')
+            r.append('        }')
+        elif kind == 'span':
+            # `#[emit::span]` on a nested fn: the props go onto the ambient context, the span event is observed at the emitter
+            r.append(f'        {i} => {{')
+            r.append(f'            let (rt, take) = span_site_runtime(&[{qs}]);')
+            args = ',\n                '.join([rust_str(template_text(fields))] + [rust_field(f) for f in fields])
+            r.append(f'            #[emit::span(')
+            r.append(f'                rt,')
+            r.append(f'                {args},')
+            r.append(f'            )]')
+            r.append(f'            fn site(rt: &SpanRt) {{}}')
+            r.append(f'            site(&rt);')
+            r.append('            take()')
             r.append('        }')
         else:
             r.append(f'        {i} => {{')
@@ -184,8 +200,8 @@ def main():
          '-/',
          'import EmitModel.Model.Props', '',
          'namespace EmitModel.Props', '',
-         '/-- `emit::props!{…}` (the collection itself) or `emit::emit!(rt, "…", …)` (observed at the emitter). -/',
-         'inductive SiteKind where', '  | props | emit', '  deriving Repr, DecidableEq, Inhabited', '',
+         '/-- `emit::props!{…}` (the collection itself), `emit::emit!(rt, "…", …)` or `#[emit::span(rt, "…", …)]` (the event observed at the emitter). -/',
+         'inductive SiteKind where', '  | props | emit | span', '  deriving Repr, DecidableEq, Inhabited', '',
          'structure Fixture where', '  kind : SiteKind', '  fields : List Field', '  queries : List String',
          '  deriving Inhabited', '',
          'def fixtures : Array Fixture := #[']
@@ -194,7 +210,7 @@ def main():
         fs = ', '.join(
             f'⟨{lean_str(key_name(f["ident"]))}, {lean_str(final(f))}, {"false" if f["cfg"] is False else "true"}, {lean_val(f)}⟩'
             for f in fields)
-        qs = ', '.join(lean_str(q) for q in queries(fields))
+        qs = ', '.join(lean_str(q) for q in queries(fields, kind))
         rows.append(f'  ⟨.{kind}, [{fs}], [{qs}]⟩')
     l.append(',\n'.join(rows))
     l += ['  ]', '', 'end EmitModel.Props', '']
